@@ -22,7 +22,7 @@ func init() {
 	register(&Check{
 		ID: "C25", Level: "other", Patterns: []string{"./internal/shell"},
 		Technique: "must-pass-through over accepting CFG edges, return-witness analysis, regexp/syntax class extraction, lock regions, per-path release counting",
-		Explain:   "Decides on the SSA of internal/shell (linux; windows and darwin in the thorough tier) that (R1) every process construction/start is reached only after the validation gate returned nil for the very ShellMeta whose Command/Args are executed, (R2) the gate returns nil only with Enabled, ValidateAuth(meta.Password)==nil, IsCommandAllowed(meta.Command), ValidateArgs(meta.Args)==nil and AcquireSession()==nil, (R3) ValidateAuth returns nil only for an empty configured hash or a bcrypt success on (PasswordHash, password), IsCommandAllowed returns true only via the wildcard or exact string equality with a whitelist element after rejecting path separators, (R4) ValidateArgs outside wildcard mode tests every argument against an unanchored character class containing all 19 frozen metacharacters and against filepath.IsAbs, (R5) the session counter is only written under the executor mutex, incremented by one in the region of the comparison that excludes sessions >= MaxSessions, and released exactly once on every error path after acquisition and only behind a once-flag elsewhere, (R6) the wildcard test is exact equality of a whitelist element with \"*\". What a whitelisted program does with its arguments, WorkDir and Env are not covered; the order of the five gate checks is not enforced (only their conjunction).",
+		Explain:   "Decides on the SSA of internal/shell (linux; windows and darwin in the thorough tier) that (R1) every process construction/start is reached only after the validation gate returned nil for the very ShellMeta whose Command/Args are executed, (R2) the gate returns nil only with Enabled, ValidateAuth(meta.Password)==nil, IsCommandAllowed(meta.Command), ValidateArgs(meta.Args)==nil and AcquireSession()==nil, (R3) ValidateAuth returns nil only for an empty configured hash or a bcrypt success on (PasswordHash, password), IsCommandAllowed returns true only via the wildcard or exact string equality with a whitelist element after rejecting path separators, (R4) ValidateArgs outside wildcard mode tests every argument against an unanchored character class containing all 19 frozen metacharacters and against filepath.IsAbs, (R5) the session counter is only written under the executor mutex, incremented by one in the region of the comparison that excludes sessions >= MaxSessions, and released exactly once on every error path after acquisition and only behind a once-flag elsewhere, (R6) the wildcard test is exact equality of a whitelist element with \"*\", (R7) the ShellMeta reaching the gate is freshly allocated per request or, if recycled (sync.Pool, package variable, field of a longer-lived object), completely reset before decoding so that no field - in particular the password - survives from an earlier request. What a whitelisted program does with its arguments, WorkDir and Env are not covered; the order of the five gate checks is not enforced (only their conjunction).",
 		Run:       runC25,
 		OtherGOOS: []string{"windows", "darwin"},
 		RunGOOS:   func(p *kit.Program, r *kit.Report, goos string) { c25Run(p, r, "["+goos+"] ") },
@@ -39,6 +39,7 @@ type c25Ctx struct {
 
 	auth, allowed, vargs, acquire, release *ssa.Function
 	gates                                  map[*ssa.Function]bool
+	usedGates                              map[*ssa.Function]bool // gates that actually guard a process construction
 	wild                                   map[*ssa.Function]bool // functions used as wildcard test
 	mu, sessions                           *types.Var
 	inlineWild                             bool
@@ -52,8 +53,9 @@ func c25Run(p *kit.Program, r *kit.Report, pre string) {
 	r.Rule("C25.R3", "ValidateAuth returns nil only if PasswordHash is empty or bcrypt.CompareHashAndPassword(PasswordHash, password)==nil; IsCommandAllowed returns true only via the wildcard or exact equality with a whitelist element after rejecting '/' and '\\'")
 	r.Rule("C25.R4", "outside wildcard mode ValidateArgs returns nil only after every argument failed the metacharacter pattern (an unanchored class containing all of ; & | $ ` ( ) { } [ ] < > \\ ! * ? ~) and filepath.IsAbs")
 	r.Rule("C25.R5", "the session counter is written only under the executor mutex; it is incremented by one in the same region as the comparison excluding sessions >= MaxSessions (or MaxSessions <= 0); a slot is released exactly once on error paths after acquisition, never on success paths, and elsewhere only behind a once-flag set in the same critical section")
+	r.Rule("C25.R7", "the ShellMeta handed to the validation gate is fresh for the request being authorised: a new allocation filled by decoding, or - when taken from a sync.Pool, a package variable or a field of a longer-lived object - reset as a whole or field by field over ALL its fields before it is decoded into (after the fetch, or before every Put into that pool)")
 	r.Rule("C25.R6", "the wildcard test is true only if some whitelist element equals \"*\" exactly")
-	cx := &c25Ctx{p: p, r: r, pre: pre, gates: map[*ssa.Function]bool{}, wild: map[*ssa.Function]bool{}}
+	cx := &c25Ctx{p: p, r: r, pre: pre, gates: map[*ssa.Function]bool{}, usedGates: map[*ssa.Function]bool{}, wild: map[*ssa.Function]bool{}}
 	cx.fns = p.FuncsInPkg(c25Pkg)
 	if !r.Require(len(cx.fns) > 0, "anchor-unresolved: %spackage %s not loaded", pre, c25Pkg) {
 		return
@@ -94,6 +96,7 @@ func c25Run(p *kit.Program, r *kit.Report, pre string) {
 	cx.ruleR3()
 	cx.ruleR4()
 	cx.ruleR5()
+	cx.ruleR7()
 }
 
 func (cx *c25Ctx) key(s string) string { return cx.pre + s }
@@ -180,11 +183,21 @@ func (cx *c25Ctx) gateFact(meta ssa.Value) func(kit.G8Fact) bool {
 		}
 		for _, a := range c.Call.Args {
 			if a == meta {
+				cx.usedGates[cal.Static] = true
 				return true
 			}
 		}
 		return false
 	}
+}
+
+// judgedGates: the gates R2/R5 reason about - those guarding a construction, or every
+// candidate when none does.
+func (cx *c25Ctx) judgedGates() map[*ssa.Function]bool {
+	if len(cx.usedGates) > 0 {
+		return cx.usedGates
+	}
+	return cx.gates
 }
 
 func (cx *c25Ctx) ruleR1() {
@@ -377,53 +390,110 @@ func (cx *c25Ctx) cmdOrigin(v ssa.Value, construct map[ssa.CallInstruction]bool,
 
 // ---------------------------------------------------------------- R2
 
+// c25Atom is one of the five conditions of the gate, parameterised by the SSA value that is
+// "the meta" in the function under examination (nil when the meta is not available there).
+type c25Atom struct {
+	name string
+	mk   func(meta ssa.Value) func(kit.G8Fact) bool
+	bad  string
+}
+
+func (cx *c25Ctx) gateAtoms() []c25Atom {
+	callOn := func(meta ssa.Value, f kit.G8Fact, callee *ssa.Function, field string) bool {
+		c, ok := f.V.(*ssa.Call)
+		if !ok || kit.CalleeOf(c).Static != callee {
+			return false
+		}
+		if field == "" {
+			return true
+		}
+		if meta == nil {
+			return false
+		}
+		for _, a := range c.Call.Args {
+			if m, ok := c25MetaField(a, field); ok && m == meta {
+				return true
+			}
+		}
+		return false
+	}
+	return []c25Atom{
+		{"Enabled", func(meta ssa.Value) func(kit.G8Fact) bool {
+			return func(f kit.G8Fact) bool { return !f.Nil && f.Pol && c25CfgField(f.V, "Enabled") }
+		}, "with the shell disabled a request still starts a process"},
+		{"ValidateAuth(meta.Password)==nil", func(meta ssa.Value) func(kit.G8Fact) bool {
+			return func(f kit.G8Fact) bool { return f.Nil && f.Pol && callOn(meta, f, cx.auth, "Password") }
+		}, "a request with a wrong or missing password starts a process"},
+		{"IsCommandAllowed(meta.Command)", func(meta ssa.Value) func(kit.G8Fact) bool {
+			return func(f kit.G8Fact) bool { return !f.Nil && f.Pol && callOn(meta, f, cx.allowed, "Command") }
+		}, "a command outside the whitelist is executed"},
+		{"ValidateArgs(meta.Args)==nil", func(meta ssa.Value) func(kit.G8Fact) bool {
+			return func(f kit.G8Fact) bool { return f.Nil && f.Pol && callOn(meta, f, cx.vargs, "Args") }
+		}, "arguments with shell metacharacters or absolute paths are passed to the command"},
+		{"AcquireSession()==nil", func(meta ssa.Value) func(kit.G8Fact) bool {
+			return func(f kit.G8Fact) bool { return f.Nil && f.Pol && callOn(meta, f, cx.acquire, "") }
+		}, "sessions start without a slot: the concurrent-session maximum is exceeded"},
+	}
+}
+
+// withHelpers lets an atom be established inside a package-local helper: the fact "helper(...)
+// returned nil / the bool outcome" is accepted when every way the helper yields that outcome
+// passes the atom (with the meta mapped to the helper's parameter).
+func (cx *c25Ctx) withHelpers(a c25Atom, meta ssa.Value, depth int) func(kit.G8Fact) bool {
+	direct := a.mk(meta)
+	return func(f kit.G8Fact) bool {
+		if direct(f) {
+			return true
+		}
+		c, ok := f.V.(*ssa.Call)
+		if !ok || depth >= 2 || (f.Nil && !f.Pol) {
+			return false
+		}
+		cal := kit.CalleeOf(c)
+		h := cal.Static
+		if h == nil || h.Blocks == nil || kit.FuncPkgPath(h) != kit.PkgPath(c25Pkg) || h.Signature.Results().Len() != 1 {
+			return false
+		}
+		if h == cx.auth || h == cx.allowed || h == cx.vargs || h == cx.acquire || h == cx.release {
+			return false
+		}
+		var sub ssa.Value
+		for i, arg := range c.Call.Args {
+			if meta != nil && arg == meta && i < len(h.Params) {
+				sub = h.Params[i]
+			}
+		}
+		ws := kit.G8Witnesses(h, 0, f.Pol)
+		if len(ws) == 0 {
+			return false
+		}
+		acc := cx.withHelpers(a, sub, depth+1)
+		for _, w := range ws {
+			if !w.Passes(acc) {
+				return false
+			}
+		}
+		return true
+	}
+}
+
 func (cx *c25Ctx) ruleR2() {
 	p, r := cx.p, cx.r
 	var gs []*ssa.Function
-	for g := range cx.gates {
+	for g := range cx.judgedGates() {
 		gs = append(gs, g)
 	}
 	sort.Slice(gs, func(i, j int) bool { return gs[i].Pos() < gs[j].Pos() })
+	atoms := cx.gateAtoms()
 	for _, g := range gs {
 		meta := ssa.Value(cx.metaParam(g))
 		gname := kit.FuncName(g)
-		callOn := func(f kit.G8Fact, callee *ssa.Function, field string) bool {
-			c, ok := f.V.(*ssa.Call)
-			if !ok || kit.CalleeOf(c).Static != callee {
-				return false
-			}
-			if field == "" {
-				return true
-			}
-			for _, a := range c.Call.Args {
-				if m, ok := c25MetaField(a, field); ok && m == meta {
-					return true
-				}
-			}
-			return false
-		}
-		atoms := []struct {
-			name string
-			acc  func(kit.G8Fact) bool
-			bad  string
-		}{
-			{"Enabled", func(f kit.G8Fact) bool { return !f.Nil && f.Pol && c25CfgField(f.V, "Enabled") },
-				"with the shell disabled a request still starts a process"},
-			{"ValidateAuth(meta.Password)==nil", func(f kit.G8Fact) bool { return f.Nil && f.Pol && callOn(f, cx.auth, "Password") },
-				"a request with a wrong or missing password starts a process"},
-			{"IsCommandAllowed(meta.Command)", func(f kit.G8Fact) bool { return !f.Nil && f.Pol && callOn(f, cx.allowed, "Command") },
-				"a command outside the whitelist is executed"},
-			{"ValidateArgs(meta.Args)==nil", func(f kit.G8Fact) bool { return f.Nil && f.Pol && callOn(f, cx.vargs, "Args") },
-				"arguments with shell metacharacters or absolute paths are passed to the command"},
-			{"AcquireSession()==nil", func(f kit.G8Fact) bool { return f.Nil && f.Pol && callOn(f, cx.acquire, "") },
-				"sessions start without a slot: the concurrent-session maximum is exceeded"},
-		}
 		ws := kit.G8Witnesses(g, 0, true)
 		r.Count(cx.pre+"gate_nil_returns", len(ws))
 		r.Require(len(ws) >= 1, "floor: %sgate %s never returns nil", cx.pre, gname)
 		for i, w := range ws {
 			for _, a := range atoms {
-				r.Decide(w.Passes(a.acc), "C25.R2", cx.key(fmt.Sprintf("%s nil-return #%d requires %s", gname, i+1, a.name)), p.Pos(w.Pos()),
+				r.Decide(w.Passes(cx.withHelpers(a, meta, 0)), "C25.R2", cx.key(fmt.Sprintf("%s nil-return #%d requires %s", gname, i+1, a.name)), p.Pos(w.Pos()),
 					"established on every path to this nil return",
 					"the gate can return nil without "+a.name+": "+a.bad)
 			}
@@ -797,7 +867,14 @@ func (cx *c25Ctx) ruleR4() {
 		if isLenArgs(x) {
 			x, y, op = y, x, flipCmp(op)
 		}
-		if !isLenArgs(y) || !idxOK(x) {
+		if !isLenArgs(y) {
+			return false
+		}
+		// no arguments at all: `k OP len(args)` on this edge excludes len(args) > k for a constant k <= 0
+		if k, isK := kit.ConstInt(x); isK && k <= 0 {
+			return cmpHolds(op, -1) != f.Pol
+		}
+		if !idxOK(x) {
 			return false
 		}
 		switch op {
@@ -813,6 +890,9 @@ func (cx *c25Ctx) ruleR4() {
 				idx := bo.X
 				if isLenArgs(bo.X) {
 					idx = bo.Y
+				}
+				if _, isConst := idx.(*ssa.Const); isConst {
+					continue // the `len(args) == 0` fast path, not a loop
 				}
 				loops = append(loops, loop{header: b, body: b.Succs[1-si], idx: idx})
 			}
@@ -1086,7 +1166,7 @@ func (cx *c25Ctx) releaseOnce() {
 	for _, f := range cx.fns {
 		var gateCall *ssa.Call
 		for _, c := range kit.Calls(f) {
-			if cal := kit.CalleeOf(c); cal.Static != nil && cx.gates[cal.Static] {
+			if cal := kit.CalleeOf(c); cal.Static != nil && cx.judgedGates()[cal.Static] && !cx.gates[f] {
 				gateCall, _ = c.(*ssa.Call)
 			}
 		}
@@ -1265,7 +1345,7 @@ func (cx *c25Ctx) onceGuarded(f *ssa.Function, in ssa.Instruction) (bool, string
 	}
 	if kit.G8MustPass(call, failed) && sess != nil {
 		if cc, _, ok := kit.ResultOf(sess); ok {
-			if cal := kit.CalleeOf(cc); cal.Static != nil && len(kit.CallsTo(cal.Static, c25Pkg, "Executor", cx.gateName())) > 0 {
+			if cal := kit.CalleeOf(cc); cal.Static != nil && cx.callsGate(cal.Static) {
 				// the session must not be stored anywhere that the once-guarded release consults
 				published := false
 				if sess.Referrers() != nil {
@@ -1285,11 +1365,432 @@ func (cx *c25Ctx) onceGuarded(f *ssa.Function, in ssa.Instruction) (bool, string
 	return false, "ReleaseSession is called without a once-flag and not on a construction error path"
 }
 
-func (cx *c25Ctx) gateName() string {
-	for g := range cx.gates {
-		return g.Name()
+func (cx *c25Ctx) callsGate(f *ssa.Function) bool {
+	for _, c := range kit.Calls(f) {
+		if cal := kit.CalleeOf(c); cal.Static != nil && cx.gates[cal.Static] {
+			return true
+		}
 	}
-	return ""
+	return false
+}
+
+// ---------------------------------------------------------------- R7
+
+// c25Origin is one place the gate's ShellMeta pointer can come from.
+type c25Origin struct {
+	kind string // fresh | pool | global | field | boundary | unknown
+	v    ssa.Value
+	fn   *ssa.Function
+	pool ssa.Value // receiver of Pool.Get
+	what string
+}
+
+// metaOrigins traces a *ShellMeta value backwards to its allocation / fetch sites.
+func (cx *c25Ctx) metaOrigins(v ssa.Value, depth int, seen map[ssa.Value]bool, out *[]c25Origin) {
+	if v == nil || seen[v] {
+		return
+	}
+	seen[v] = true
+	fnOf := func(x ssa.Value) *ssa.Function {
+		if in, ok := x.(ssa.Instruction); ok {
+			return in.Parent()
+		}
+		if p, ok := x.(*ssa.Parameter); ok {
+			return p.Parent()
+		}
+		return nil
+	}
+	add := func(kind string, x ssa.Value, pool ssa.Value, what string) {
+		*out = append(*out, c25Origin{kind: kind, v: x, fn: fnOf(x), pool: pool, what: what})
+	}
+	switch x := v.(type) {
+	case *ssa.Alloc:
+		add("fresh", x, nil, "new allocation")
+	case *ssa.Const:
+		add("fresh", x, nil, "nil")
+	case *ssa.MakeInterface:
+		cx.metaOrigins(x.X, depth, seen, out)
+	case *ssa.ChangeType:
+		cx.metaOrigins(x.X, depth, seen, out)
+	case *ssa.ChangeInterface:
+		cx.metaOrigins(x.X, depth, seen, out)
+	case *ssa.Phi:
+		for _, e := range x.Edges {
+			cx.metaOrigins(e, depth, seen, out)
+		}
+	case *ssa.TypeAssert:
+		if c, ok := x.X.(*ssa.Call); ok {
+			if cal := kit.CalleeOf(c); cal.Pkg == "sync" && cal.Recv == "Pool" && cal.Name == "Get" {
+				add("pool", x, kit.Receiver(c), "sync.Pool.Get")
+				return
+			}
+		}
+		cx.metaOrigins(x.X, depth, seen, out)
+	case *ssa.Extract:
+		if c, ok := x.Tuple.(*ssa.Call); ok {
+			cx.callOrigins(c, x.Index, depth, seen, out)
+			return
+		}
+		if ta, ok := x.Tuple.(*ssa.TypeAssert); ok {
+			cx.metaOrigins(ta, depth, seen, out)
+			return
+		}
+		add("unknown", x, nil, "untraced value")
+	case *ssa.Call:
+		cx.callOrigins(x, 0, depth, seen, out)
+	case *ssa.FieldAddr:
+		if root := c25AllocRoot(x.X); root != nil {
+			add("fresh", x, nil, "field of a new allocation")
+			return
+		}
+		add("field", x, nil, "embedded field "+kit.FieldOfAddr(x).Name()+" of a longer-lived object")
+	case *ssa.Global:
+		add("global", x, nil, "package variable "+x.Name())
+	case *ssa.UnOp:
+		if x.Op != token.MUL {
+			add("unknown", x, nil, "untraced value")
+			return
+		}
+		switch a := x.X.(type) {
+		case *ssa.Alloc: // local variable holding the pointer
+			if a.Referrers() != nil {
+				for _, ref := range *a.Referrers() {
+					if st, ok := ref.(*ssa.Store); ok && st.Addr == a {
+						cx.metaOrigins(st.Val, depth, seen, out)
+					}
+				}
+			}
+		case *ssa.Global:
+			add("global", x, nil, "package variable "+a.Name())
+		case *ssa.FieldAddr:
+			if root := c25AllocRoot(a.X); root != nil {
+				// field of a local struct: follow its stores
+				n := 0
+				if a.Referrers() != nil {
+					for _, ref := range *a.Referrers() {
+						if st, ok := ref.(*ssa.Store); ok && st.Addr == a {
+							n++
+							cx.metaOrigins(st.Val, depth, seen, out)
+						}
+					}
+				}
+				if n > 0 {
+					return
+				}
+			}
+			add("field", x, nil, "field "+kit.FieldOfAddr(a).Name()+" of a longer-lived object")
+		default:
+			add("unknown", x, nil, "untraced value")
+		}
+	case *ssa.Parameter:
+		fn := x.Parent()
+		idx := -1
+		for i, q := range fn.Params {
+			if q == x {
+				idx = i
+			}
+		}
+		sites := cx.p.StaticCallers(fn)
+		if idx < 0 || len(sites) == 0 || depth >= 4 {
+			add("boundary", x, nil, "parameter of "+kit.FuncName(fn)+" (no further in-repo callers)")
+			return
+		}
+		for _, site := range sites {
+			if args := site.Common().Args; idx < len(args) {
+				cx.metaOrigins(args[idx], depth+1, seen, out)
+			}
+		}
+	case *ssa.FreeVar:
+		add("unknown", x, nil, "captured variable")
+	default:
+		add("unknown", v, nil, "untraced value")
+	}
+}
+
+func (cx *c25Ctx) callOrigins(c *ssa.Call, idx int, depth int, seen map[ssa.Value]bool, out *[]c25Origin) {
+	cal := kit.CalleeOf(c)
+	if cal.Pkg == "sync" && cal.Recv == "Pool" && cal.Name == "Get" {
+		*out = append(*out, c25Origin{kind: "pool", v: c, fn: c.Parent(), pool: kit.Receiver(c), what: "sync.Pool.Get"})
+		return
+	}
+	if cal.Built == "new" {
+		*out = append(*out, c25Origin{kind: "fresh", v: c, fn: c.Parent(), what: "new"})
+		return
+	}
+	if cal.Static == nil || cal.Static.Blocks == nil || !kit.IsRepoPkg(kit.FuncPkgPath(cal.Static)) || depth >= 4 {
+		*out = append(*out, c25Origin{kind: "unknown", v: c, fn: c.Parent(), what: "result of " + cal.String()})
+		return
+	}
+	for _, ret := range kit.Returns(cal.Static) {
+		if ret.Block() == cal.Static.Recover {
+			continue
+		}
+		cx.metaOrigins(kit.ReturnResult(ret, idx), depth+1, seen, out)
+	}
+}
+
+func c25AllocRoot(v ssa.Value) *ssa.Alloc {
+	for i := 0; i < 10; i++ {
+		switch x := v.(type) {
+		case *ssa.Alloc:
+			return x
+		case *ssa.FieldAddr:
+			v = x.X
+		case *ssa.IndexAddr:
+			v = x.X
+		default:
+			return nil
+		}
+	}
+	return nil
+}
+
+// resetBefore: the fields of the struct *ptr that are certainly overwritten/cleared before
+// instruction `before` executes (stores and clear() that precede it; one level of
+// package-local helpers called on ptr). whole=true: a whole-struct zero store precedes.
+func (cx *c25Ctx) resetBefore(ptr ssa.Value, before ssa.Instruction, depth int) (fields map[string]bool, whole bool) {
+	fields = map[string]bool{}
+	fn := before.Parent()
+	same := func(v ssa.Value) bool { return v == ptr || kit.G8Unwrap(v) == ptr }
+	kit.Instrs(fn, func(in ssa.Instruction) {
+		if in == before || !kit.Precedes(in, before) {
+			return
+		}
+		switch x := in.(type) {
+		case *ssa.Store:
+			if same(x.Addr) {
+				if c, ok := x.Val.(*ssa.Const); ok {
+					if _, isStruct := c.Type().Underlying().(*types.Struct); isStruct {
+						whole = true
+					}
+				}
+				if u, ok := x.Val.(*ssa.UnOp); ok && u.Op == token.MUL {
+					if a, ok := u.X.(*ssa.Alloc); ok && c25NeverWritten(a) {
+						whole = true
+					}
+				}
+			}
+			if fa, ok := x.Addr.(*ssa.FieldAddr); ok && same(fa.X) {
+				fields[kit.FieldOfAddr(fa).Name()] = true
+			}
+		case ssa.CallInstruction:
+			cal := kit.CalleeOf(x)
+			args := x.Common().Args
+			if cal.Built == "clear" && len(args) == 1 {
+				if f, base := kit.LoadedField(args[0]); f != nil && same(base) {
+					fields[f.Name()] = true
+				}
+			}
+			if cal.Static != nil && cal.Static.Blocks != nil && kit.FuncPkgPath(cal.Static) == kit.PkgPath(c25Pkg) && depth < 1 {
+				for i, a := range args {
+					if same(a) && i < len(cal.Static.Params) {
+						// fields reset on every path of the helper: before each return
+						var acc map[string]bool
+						w := true
+						for _, ret := range kit.Returns(cal.Static) {
+							if ret.Block() == cal.Static.Recover {
+								continue
+							}
+							f2, w2 := cx.resetBefore(cal.Static.Params[i], ret, depth+1)
+							if acc == nil {
+								acc = f2
+							} else {
+								for k := range acc {
+									if !f2[k] {
+										delete(acc, k)
+									}
+								}
+							}
+							w = w && w2
+						}
+						for k := range acc {
+							fields[k] = true
+						}
+						if w && acc != nil {
+							whole = true
+						}
+					}
+				}
+			}
+		}
+	})
+	return
+}
+
+// c25NeverWritten: the local struct is only read (still its zero value).
+func c25NeverWritten(a *ssa.Alloc) bool {
+	if a.Referrers() == nil {
+		return true
+	}
+	for _, ref := range *a.Referrers() {
+		switch x := ref.(type) {
+		case *ssa.UnOp:
+		case *ssa.DebugRef:
+		default:
+			_ = x
+			return false
+		}
+	}
+	return true
+}
+
+func (cx *c25Ctx) ruleR7() {
+	p, r := cx.p, cx.r
+	// S: functions that forward a ShellMeta parameter to the gate (transitively)
+	S := map[*ssa.Function]bool{}
+	for g := range cx.gates {
+		S[g] = true
+	}
+	for changed := true; changed; {
+		changed = false
+		for _, f := range cx.fns {
+			if S[f] || cx.metaParam(f) == nil {
+				continue
+			}
+			for _, c := range kit.Calls(f) {
+				if cal := kit.CalleeOf(c); cal.Static != nil && S[cal.Static] {
+					for _, a := range c.Common().Args {
+						if a == ssa.Value(cx.metaParam(f)) {
+							S[f] = true
+							changed = true
+						}
+					}
+				}
+			}
+		}
+	}
+	st := p.NamedType(c25Pkg, "ShellMeta")
+	var allFields []string
+	for _, f := range kit.StructFields(st) {
+		allFields = append(allFields, f.Name())
+	}
+	// Put sites per pool
+	type putSite struct {
+		call ssa.CallInstruction
+		arg  ssa.Value
+	}
+	puts := map[ssa.Value][]putSite{}
+	for _, f := range p.RepoFuncs() {
+		for _, c := range kit.Calls(f) {
+			if cal := kit.CalleeOf(c); cal.Pkg == "sync" && cal.Recv == "Pool" && cal.Name == "Put" {
+				puts[kit.Receiver(c)] = append(puts[kit.Receiver(c)], putSite{c, kit.G8Unwrap(kit.Arg(c, 0))})
+			}
+		}
+	}
+	nSites := 0
+	ord := map[*ssa.Function]int{}
+	for _, f := range p.RepoFuncs() {
+		if S[f] {
+			continue // forwarding only: judged at its callers
+		}
+		for _, c := range kit.Calls(f) {
+			cal := kit.CalleeOf(c)
+			if cal.Static == nil || !S[cal.Static] {
+				continue
+			}
+			var meta ssa.Value
+			for _, a := range c.Common().Args {
+				if c24Named(a.Type(), kit.PkgPath(c25Pkg), "ShellMeta") {
+					meta = a
+				}
+			}
+			if meta == nil {
+				continue
+			}
+			nSites++
+			ord[f]++
+			key := cx.key(fmt.Sprintf("%s meta for %s #%d", kit.FuncName(f), cal.Static.Name(), ord[f]))
+			var origins []c25Origin
+			cx.metaOrigins(meta, 0, map[ssa.Value]bool{}, &origins)
+			bad := ""
+			for _, o := range origins {
+				switch o.kind {
+				case "fresh", "boundary", "unknown":
+					continue
+				}
+				// recycled storage: a complete reset must precede the first use of the object
+				// as a call argument (the decode), or every Put into the pool
+				var firstUse ssa.Instruction
+				if o.fn != nil {
+					kit.Instrs(o.fn, func(in ssa.Instruction) {
+						if firstUse != nil {
+							return
+						}
+						if oi, _ := o.v.(ssa.Instruction); in == oi {
+							return
+						}
+						if ci, ok := in.(ssa.CallInstruction); ok {
+							for _, a := range ci.Common().Args {
+								if kit.G8Unwrap(a) == o.v && kit.CalleeOf(ci).Built == "" {
+									firstUse = in
+								}
+							}
+						}
+					})
+				}
+				covered := map[string]bool{}
+				whole := false
+				if firstUse != nil {
+					covered, whole = cx.resetBefore(o.v, firstUse, 0)
+				}
+				if !whole && o.kind == "pool" {
+					// reset before every Put of this pool
+					var sites []putSite
+					for recv, ps := range puts {
+						if recv == o.pool {
+							sites = ps
+						}
+					}
+					var inter map[string]bool
+					allWhole := len(sites) > 0
+					for _, ps := range sites {
+						f2, w2 := cx.resetBefore(ps.arg, ps.call, 0)
+						if w2 {
+							f2 = map[string]bool{}
+							for _, n := range allFields {
+								f2[n] = true
+							}
+						}
+						allWhole = allWhole && w2
+						if inter == nil {
+							inter = f2
+						} else {
+							for k := range inter {
+								if !f2[k] {
+									delete(inter, k)
+								}
+							}
+						}
+					}
+					if len(sites) == 0 {
+						whole = true // nothing is ever put back: Get always runs New
+					}
+					for k := range inter {
+						covered[k] = true
+					}
+					whole = whole || allWhole
+				}
+				if whole {
+					continue
+				}
+				var missing []string
+				for _, n := range allFields {
+					if !covered[n] {
+						missing = append(missing, n)
+					}
+				}
+				if len(missing) > 0 {
+					bad = fmt.Sprintf("the ShellMeta comes from %s in %s and field(s) %s are not reset before the request is decoded into it", o.what, kit.FuncName(o.fn), strings.Join(missing, ", "))
+					break
+				}
+			}
+			r.Decide(bad == "", "C25.R7", key, p.Pos(c.Pos()),
+				"the meta is freshly allocated per request (or completely reset before decoding)",
+				bad+": json.Unmarshal leaves absent keys untouched, so a request omitting them (e.g. \"password\") is authorised with a previous request's values")
+		}
+	}
+	r.Count(cx.pre+"gate_entry_sites", nSites)
+	r.Require(nSites >= 1, "floor: %sno call site hands a ShellMeta to the gate", cx.pre)
 }
 
 // ---------------------------------------------------------------- self-tests
@@ -1298,6 +1799,7 @@ const (
 	c25E = "internal/shell/executor.go"
 	c25H = "internal/shell/handler.go"
 	c25P = "internal/shell/pty_unix.go"
+	c25M = "internal/shell/messages.go"
 )
 
 const c25AcquireBody = "\te.mu.Lock()\n\tdefer e.mu.Unlock()\n\n\tif e.config.MaxSessions > 0 && e.sessions >= e.config.MaxSessions {\n\t\treturn fmt.Errorf(\"max sessions (%d) reached\", e.config.MaxSessions)\n\t}\n\n\te.sessions++\n\treturn nil\n"
@@ -1471,5 +1973,59 @@ var c25SelfTests = []SelfTest{
 	}},
 	{Name: "rewrite: wildcard test inlined into IsCommandAllowed", Edits: []Edit{
 		{File: c25E, Old: "\tif e.hasWildcard() {\n\t\treturn true\n\t}\n\n\t// Only allow base command names", New: "\tfor _, w := range e.config.Whitelist {\n\t\tif w == \"*\" {\n\t\t\treturn true\n\t\t}\n\t}\n\n\t// Only allow base command names"},
+	}},
+	// ---- round 2: request freshness, callbacks, fast paths
+	{Name: "pooled request metadata, reset omits the password", ExpectRule: "C25.R7", ExpectKey: "meta for", Edits: []Edit{
+		{File: c25M, Old: "\t\"fmt\"\n)", New: "\t\"fmt\"\n\t\"sync\"\n)"},
+		{File: c25M, Old: "\tvar meta ShellMeta\n\tif err := json.Unmarshal(payload, &meta); err != nil {\n\t\treturn nil, fmt.Errorf(\"failed to unmarshal meta: %w\", err)\n\t}\n\treturn &meta, nil\n}\n", New: "\tmeta := metaPool.Get().(*ShellMeta)\n\tif err := json.Unmarshal(payload, meta); err != nil {\n\t\treturn nil, fmt.Errorf(\"failed to unmarshal meta: %w\", err)\n\t}\n\treturn meta, nil\n}\n\nvar metaPool = sync.Pool{New: func() any { return new(ShellMeta) }}\n\n// ReleaseMeta recycles meta.\nfunc ReleaseMeta(meta *ShellMeta) {\n\tif meta == nil {\n\t\treturn\n\t}\n\tmeta.Command = \"\"\n\tmeta.Args = meta.Args[:0]\n\tclear(meta.Env)\n\tmeta.WorkDir = \"\"\n\tmeta.TTY = nil\n\tmeta.Timeout = 0\n\tmetaPool.Put(meta)\n}\n"},
+		{File: c25H, Old: "\t\t\tss.PTYSession.Close()\n\t\t\th.executor.ReleaseSession()\n\t\t}\n", New: "\t\t\tss.PTYSession.Close()\n\t\t\th.executor.ReleaseSession()\n\t\t}\n\t\tif ss.Meta != nil {\n\t\t\tReleaseMeta(ss.Meta)\n\t\t\tss.Meta = nil\n\t\t}\n"},
+	}},
+	{Name: "request decoded into a package-level scratch value", ExpectRule: "C25.R7", ExpectKey: "meta for", Edits: []Edit{
+		{File: c25M, Old: "\tvar meta ShellMeta\n\tif err := json.Unmarshal(payload, &meta); err != nil {\n\t\treturn nil, fmt.Errorf(\"failed to unmarshal meta: %w\", err)\n\t}\n\treturn &meta, nil\n}\n", New: "\tmeta := &decodeScratch\n\tif err := json.Unmarshal(payload, meta); err != nil {\n\t\treturn nil, fmt.Errorf(\"failed to unmarshal meta: %w\", err)\n\t}\n\treturn meta, nil\n}\n\nvar decodeScratch ShellMeta\n"},
+	}},
+	{Name: "request decoded into the previous metadata kept by the handler", ExpectRule: "C25.R7", ExpectKey: "meta for", Edits: []Edit{
+		{File: c25M, Old: "\tvar meta ShellMeta\n\tif err := json.Unmarshal(payload, &meta); err != nil {\n\t\treturn nil, fmt.Errorf(\"failed to unmarshal meta: %w\", err)\n\t}\n\treturn &meta, nil\n}\n", New: "\treturn DecodeMetaInto(new(ShellMeta), payload)\n}\n\n// DecodeMetaInto decodes into dst.\nfunc DecodeMetaInto(dst *ShellMeta, payload []byte) (*ShellMeta, error) {\n\tif err := json.Unmarshal(payload, dst); err != nil {\n\t\treturn nil, fmt.Errorf(\"failed to unmarshal meta: %w\", err)\n\t}\n\treturn dst, nil\n}\n"},
+		{File: c25H, Old: "\tmeta, err := DecodeMeta(payload)\n", New: "\tif h.lastMeta == nil {\n\t\th.lastMeta = new(ShellMeta)\n\t}\n\tmeta, err := DecodeMetaInto(h.lastMeta, payload)\n"},
+		{File: c25H, Old: "\tstreams  map[uint64]*ShellStream\n", New: "\tstreams  map[uint64]*ShellStream\n\tlastMeta *ShellMeta\n"},
+	}},
+	{Name: "rewrite: pooled metadata zeroed as a whole before decoding", Edits: []Edit{
+		{File: c25M, Old: "\t\"fmt\"\n)", New: "\t\"fmt\"\n\t\"sync\"\n)"},
+		{File: c25M, Old: "\tvar meta ShellMeta\n\tif err := json.Unmarshal(payload, &meta); err != nil {\n\t\treturn nil, fmt.Errorf(\"failed to unmarshal meta: %w\", err)\n\t}\n\treturn &meta, nil\n}\n", New: "\tmeta := metaPool.Get().(*ShellMeta)\n\t*meta = ShellMeta{}\n\tif err := json.Unmarshal(payload, meta); err != nil {\n\t\treturn nil, fmt.Errorf(\"failed to unmarshal meta: %w\", err)\n\t}\n\treturn meta, nil\n}\n\nvar metaPool = sync.Pool{New: func() any { return new(ShellMeta) }}\n\n// ReleaseMeta recycles meta.\nfunc ReleaseMeta(meta *ShellMeta) {\n\tif meta == nil {\n\t\treturn\n\t}\n\tmeta.Command = \"\"\n\tmeta.Args = meta.Args[:0]\n\tclear(meta.Env)\n\tmeta.WorkDir = \"\"\n\tmeta.TTY = nil\n\tmeta.Timeout = 0\n\tmetaPool.Put(meta)\n}\n"},
+		{File: c25H, Old: "\t\t\tss.PTYSession.Close()\n\t\t\th.executor.ReleaseSession()\n\t\t}\n", New: "\t\t\tss.PTYSession.Close()\n\t\t\th.executor.ReleaseSession()\n\t\t}\n\t\tif ss.Meta != nil {\n\t\t\tReleaseMeta(ss.Meta)\n\t\t\tss.Meta = nil\n\t\t}\n"},
+	}},
+	{Name: "rewrite: pooled metadata with a complete field-wise reset before Put", Edits: []Edit{
+		{File: c25M, Old: "\t\"fmt\"\n)", New: "\t\"fmt\"\n\t\"sync\"\n)"},
+		{File: c25M, Old: "\tvar meta ShellMeta\n\tif err := json.Unmarshal(payload, &meta); err != nil {\n\t\treturn nil, fmt.Errorf(\"failed to unmarshal meta: %w\", err)\n\t}\n\treturn &meta, nil\n}\n", New: "\tmeta := metaPool.Get().(*ShellMeta)\n\tif err := json.Unmarshal(payload, meta); err != nil {\n\t\treturn nil, fmt.Errorf(\"failed to unmarshal meta: %w\", err)\n\t}\n\treturn meta, nil\n}\n\nvar metaPool = sync.Pool{New: func() any { return new(ShellMeta) }}\n\n// ReleaseMeta recycles meta.\nfunc ReleaseMeta(meta *ShellMeta) {\n\tif meta == nil {\n\t\treturn\n\t}\n\tmeta.Command = \"\"\n\tmeta.Args = meta.Args[:0]\n\tclear(meta.Env)\n\tmeta.WorkDir = \"\"\n\tmeta.TTY = nil\n\tmeta.Timeout = 0\n\tmeta.Password = \"\"\n\tmetaPool.Put(meta)\n}\n"},
+		{File: c25H, Old: "\t\t\tss.PTYSession.Close()\n\t\t\th.executor.ReleaseSession()\n\t\t}\n", New: "\t\t\tss.PTYSession.Close()\n\t\t\th.executor.ReleaseSession()\n\t\t}\n\t\tif ss.Meta != nil {\n\t\t\tReleaseMeta(ss.Meta)\n\t\t\tss.Meta = nil\n\t\t}\n"},
+	}},
+	{Name: "rewrite: DecodeMeta allocates with new and decodes through a helper", Edits: []Edit{
+		{File: c25M, Old: "\tvar meta ShellMeta\n\tif err := json.Unmarshal(payload, &meta); err != nil {\n\t\treturn nil, fmt.Errorf(\"failed to unmarshal meta: %w\", err)\n\t}\n\treturn &meta, nil\n}\n", New: "\treturn decodeMetaInto(new(ShellMeta), payload)\n}\n\nfunc decodeMetaInto(dst *ShellMeta, payload []byte) (*ShellMeta, error) {\n\tif err := json.Unmarshal(payload, dst); err != nil {\n\t\treturn nil, fmt.Errorf(\"failed to unmarshal meta: %w\", err)\n\t}\n\treturn dst, nil\n}\n"},
+	}},
+	{Name: "session carries its own release callback (double release on a failed start)", ExpectRule: "C25.R5", ExpectKey: "release reference", Edits: []Edit{
+		{File: c25E, Old: "\tstartTime   time.Time\n}", New: "\tstartTime   time.Time\n\trelease     func()\n}"},
+		{File: c25E, Old: "\t\tstartTime: time.Now(),\n\t}\n\n\treturn session, nil\n", New: "\t\tstartTime: time.Now(),\n\t\trelease:   e.ReleaseSession,\n\t}\n\n\treturn session, nil\n"},
+		{File: c25E, Old: "\tif err := s.cmd.Start(); err != nil {\n\t\ts.mu.Unlock()\n", New: "\tif err := s.cmd.Start(); err != nil {\n\t\ts.mu.Unlock()\n\t\ts.cancel()\n\t\tif s.release != nil {\n\t\t\ts.release()\n\t\t}\n"},
+	}},
+	{Name: "validation skipped for long argument lists", ExpectRule: "C25.R4", ExpectKey: "nil-return", Edits: []Edit{
+		{File: c25E, Old: "\tfor i, arg := range args {\n", New: "\tif len(args) > 8 {\n\t\treturn nil\n\t}\n\tfor i, arg := range args {\n"},
+	}},
+	{Name: "rewrite: fast path for an empty argument list", Edits: []Edit{
+		{File: c25E, Old: "\tfor i, arg := range args {\n", New: "\tif len(args) == 0 {\n\t\treturn nil\n\t}\n\tfor i, arg := range args {\n"},
+	}},
+	{Name: "whitelist compared with a normalised command", ExpectRule: "C25.R3", ExpectKey: "IsCommandAllowed", Edits: []Edit{
+		{File: c25E, Old: "if allowed == command {", New: "if allowed == strings.TrimSpace(command) {"},
+	}},
+	{Name: "last good password remembered", ExpectRule: "C25.R3", ExpectKey: "ValidateAuth", Edits: []Edit{
+		{File: c25E, Old: "\terr := bcrypt.CompareHashAndPassword([]byte(hash), []byte(password))\n", New: "\tif password == lastGoodPassword {\n\t\treturn nil\n\t}\n\terr := bcrypt.CompareHashAndPassword([]byte(hash), []byte(password))\n"},
+		{File: c25E, Old: "// dangerousArgPattern matches shell metacharacters", New: "var lastGoodPassword = \"\"\n\n// dangerousArgPattern matches shell metacharacters"},
+	}},
+	{Name: "already validated metadata skips the gate", ExpectRule: "C25.R1", ExpectKey: "NewSession process construction", Edits: []Edit{
+		{File: c25E, Old: "(*Session, error) {\n\tif err := e.validateAndAcquire(meta); err != nil {\n\t\treturn nil, err\n\t}", New: "(*Session, error) {\n\tif meta.Timeout >= 0 {\n\t\tif err := e.validateAndAcquire(meta); err != nil {\n\t\t\treturn nil, err\n\t\t}\n\t}"},
+	}},
+	{Name: "rewrite: gate delegates the command and argument checks to a helper", Edits: []Edit{
+		{File: c25E, Old: "\tif !e.IsCommandAllowed(meta.Command) {\n\t\treturn fmt.Errorf(\"command '%s' is not allowed\", meta.Command)\n\t}\n\n\tif err := e.ValidateArgs(meta.Args); err != nil {\n\t\treturn err\n\t}\n\n\treturn e.AcquireSession()\n}\n", New: "\tif err := e.checkCommand(meta); err != nil {\n\t\treturn err\n\t}\n\n\treturn e.AcquireSession()\n}\n\nfunc (e *Executor) checkCommand(meta *ShellMeta) error {\n\tif !e.IsCommandAllowed(meta.Command) {\n\t\treturn fmt.Errorf(\"command '%s' is not allowed\", meta.Command)\n\t}\n\treturn e.ValidateArgs(meta.Args)\n}\n"},
+	}},
+	{Name: "merged helper accepts when either check passes", ExpectRule: "C25.R2", ExpectKey: "requires", Edits: []Edit{
+		{File: c25E, Old: "\tif !e.IsCommandAllowed(meta.Command) {\n\t\treturn fmt.Errorf(\"command '%s' is not allowed\", meta.Command)\n\t}\n\n\tif err := e.ValidateArgs(meta.Args); err != nil {\n\t\treturn err\n\t}\n\n\treturn e.AcquireSession()\n}\n", New: "\tif err := e.checkCommand(meta); err != nil {\n\t\treturn err\n\t}\n\n\treturn e.AcquireSession()\n}\n\nfunc (e *Executor) checkCommand(meta *ShellMeta) error {\n\tif e.IsCommandAllowed(meta.Command) || e.ValidateArgs(meta.Args) == nil {\n\t\treturn nil\n\t}\n\treturn fmt.Errorf(\"command '%s' is not allowed\", meta.Command)\n}\n"},
 	}},
 }
